@@ -281,7 +281,11 @@ def chkC10 (t : ETrace) (err : Option String) (state : Option WorldObs) (res : L
     let s3 : ChkState := (List.range npools).foldl (fun (a : ChkState) (i : Nat) =>
         (w.pools.getD i default).A.foldl (chkCanSuspendFlag (s.prev.pools.getD i default)) a) s2
     let gone : List Nat := s.pendS.map (fun x => x.2) ++ s.prev.pools.flatMap (fun p => p.S.map (fun x => x.cid))
-    s3.req (res.all (fun r => !gone.contains r.cid)) "suspended-reports-no-result"
+    -- a pool that had write-outs in progress: the allocations were held, and those that ended were freed exactly (pool balance)
+    let s4 : ChkState := (List.range npools).foldl (fun (a : ChkState) (i : Nat) =>
+        if (s.prev.pools.getD i default).S.isEmpty || s.tainted then a
+        else a.req (conservedB true (w.pools.getD i default)) "allocation-held-then-freed-exactly") s3
+    s4.req (res.all (fun r => !gone.contains r.cid)) "suspended-reports-no-result"
 
 /-! ### C11 / C04: the OOM killer, from the snapshot taken when it is entered -/
 
